@@ -30,6 +30,9 @@ ALL_FEATURES = frozenset({
     "const_cmp",                    # comparison of two compile-time constants used as a condition
 })
 
+# frozen feature list used by the static checks C10-C12 (explicit: later additions to ALL_FEATURES do not leak in)
+STATIC_FEATURES = frozenset({'narrow', 'widen_unsigned_from_signed', 'hyb_unused_stmt', 'explicit', 'hyb_stmtexpr', 'jump', 'const_cmp', 'cmp_narrow', 'imm', 'hyb_inc', 'compound_assign_narrow', 'alias', 'const_cond', 'sizeof', 'hyb_call', 'suffix_literal', 'mem', 'cond', 'logical_mixed', 'if', 'shift', 'unary', 'loop', 'hyb_in_cond_arm', 'compound_assign', 'cast', 'calls_mixed_tmp_width', 'hyb_in_logical', 'narrow_cond_arms', 'cmp_value', 'big_literal', 'pred', 'div', 'narrow_shift_left', 'new', 'logical'})
+
 SAFE_CORE = frozenset({"cond", "cast", "unary", "shift", "if", "loop", "compound_assign", "imm", "mem", "logical"})
 
 
@@ -226,8 +229,7 @@ def expr(draw, env, depth, allow_hybrid=False):
     if k == "cond":
         c = draw(condition(env, depth - 1, allow_hybrid=False))
         arm_h = allow_hybrid and "hyb_in_cond_arm" in f
-        a = draw(expr(env, depth - 1, arm_h))
-        b = draw(expr(env, depth - 1, arm_h))
+        arm = None
         if allow_hybrid and "hyb_stmtexpr" in f and draw(st.integers(0, 2)) == 0:
             # a statement-expression arm that assigns an existing, already initialised variable (the form the
             # shipped saturation macros use): its statements must run only when the arm is selected
@@ -238,10 +240,13 @@ def expr(draw, env, depth, allow_hybrid=False):
                 env.busy.add(n_)
                 arm = ("stmtexpr", [("expr", ("assign", "=", ("var", n_), draw(expr(env, depth - 1, False))))],
                        draw(expr(env, max(depth - 2, 0), False)))
-                if draw(st.booleans()):
-                    a = arm
-                else:
-                    b = arm
+        other = draw(expr(env, depth - 1, arm_h))
+        if arm is None:
+            a, b = other, draw(expr(env, depth - 1, arm_h))
+        elif draw(st.booleans()):
+            a, b = arm, other
+        else:
+            a, b = other, arm
         return ("cond", c, a, b)
     if k == "constcond":
         c = draw(st.sampled_from([num(1), num(0), ("bin", "==", num(1), num(1)), ("bin", "<", num(3), num(2))]))
